@@ -673,3 +673,18 @@ Proof.
   destruct (gen_loop_all_ok r s teq flat r [] m Hg id X Hin Hel) as (ir & Hc).
   destruct (create_type_ir_flat r s X flat flat0 ir Hc) as (ir' & Hc' & _). eauto.
 Qed.
+
+Lemma ir_of_source_spec defs s order_tp d :
+  ti_params (ir_of_source defs s order_tp d) = map pos_tpi (generics_of d) /\
+  ti_unused (ir_of_source defs s order_tp d) =
+    map pos_tpi (filter (fun i => negb (existsb (Nat.eqb i) (body_params defs (sd_body d)))) (generics_of d)) /\
+  kind_fields (ti_kind (ir_of_source defs s order_tp d)) = map (normal_field defs s order_tp) (def_sfields d).
+Proof.
+  split; [reflexivity|]. split; [reflexivity|].
+  assert (Hck : forall fs, ckind_fields (src_ckind defs s order_tp fs) = map (normal_field defs s order_tp) fs).
+  { intros fs. unfold src_ckind. destruct fs as [|f fs]; [reflexivity|].
+    destruct (forallb sf_named (f :: fs)); cbn [ckind_fields]; [rewrite map_map|]; reflexivity. }
+  unfold ir_of_source, def_sfields. cbn [ti_kind]. destruct (sd_body d) as [fs|vs]; cbn [kind_fields ci_kind].
+  - apply Hck.
+  - induction vs as [|v vs IH]; [reflexivity|]. cbn [map flat_map snd ci_kind]. rewrite Hck, map_app, IH. reflexivity.
+Qed.
